@@ -101,13 +101,15 @@ impl Object for Font {
     fn from_primitive(p: Primitive, resolve: &impl Resolve) -> Result<Self> {
         let mut dict = p.resolve(resolve)?.into_dictionary()?;
 
-        let subtype = t!(FontType::from_primitive(dict.require("Font", "Subtype")?, resolve));
+        let subtype = FontType::from_primitive(dict.require("Font", "Subtype")?, resolve)
+            .map_err(|e| PdfError::FromPrimitive { typ: "Font", field: "Subtype", source: Box::new(e) })?;
 
         // BaseFont is required for all FontTypes except Type3
         dict.expect("Font", "Type", "Font", true)?;
         let base_font_primitive = dict.get("BaseFont");
         let base_font = match (base_font_primitive, subtype) {
-            (Some(name), _) => Some(t!(t!(name.clone().resolve(resolve)).into_name(), name)),
+            (Some(name), _) => Some(name.clone().resolve(resolve).and_then(|p| p.into_name())
+                .map_err(|e| PdfError::FromPrimitive { typ: "Font", field: "BaseFont", source: Box::new(e) })?),
             (None, FontType::Type3) => None,
             (_, _) => return Err(PdfError::MissingEntry {
                 typ: "Font",
